@@ -5,6 +5,7 @@ import (
 	"math/big"
 	"net/url"
 	"regexp"
+	"runtime"
 	"strings"
 	"testing"
 	"unicode/utf8"
@@ -114,6 +115,24 @@ func checkC16(c c16Case) verdict {
 	if qi := u2.Query().Get("issuer"); qi != c.Issuer || qi != got.Issuer {
 		return bad(nt, labels, "issuer parameter %q differs from the label issuer %q / input %q in %q", qi, got.Issuer, c.Issuer, text)
 	}
+	// a parse result is the caller's: it edits it (and keeps it) and parses the same text again — the second result is read
+	// from the URL, not from what the caller made of the first
+	want := *got
+	edited := &otp.URLParam{}
+	*edited = *got
+	got.Issuer, got.AccountName, got.Secret, got.Digits, got.Period, got.Algorithm = "edited", "edited", "EDITED", 1, 1, otp.Algorithm((c.Algo+1)%3)
+	u3, _ := url.Parse(text)
+	again, err := otp.ParseOTPAuthURL(u3)
+	if err != nil || again == nil || *again != want {
+		c16Kept = nil
+		return bad(nt, labels, "after the caller edited the first result, parsing %q again returns %+v, %v; the URL says %+v", text, again, err, want)
+	}
+	if again == got {
+		c16Kept = nil
+		return bad(nt, labels, "parsing %q twice returned the same *URLParam (%p): a result the caller may have edited", text, got)
+	}
+	*got = *edited // the kept-results observation above goes on with the value as parsed
+	runtime.KeepAlive(got)
 	return ok(nt, labels...)
 }
 
